@@ -122,12 +122,13 @@ class _UnionNormType(_BasicNormType):
         return Union
 
     # ensure stable order of args during one interpreter session
+    # (id is a tiebreaker for distinct objects with the same text, e.g. two classes with the same name)
     def _make_orderable(self, obj: object) -> str:
         if isinstance(obj, BaseNormType):
-            return f"{obj.origin} {[self._make_orderable(arg) for arg in obj.args]}"
+            return f"{obj.origin} {id(obj.origin)} {[self._make_orderable(arg) for arg in obj.args]}"
         if isinstance(obj, tuple):  # parameters of Callable
             return f"{[self._make_orderable(arg) for arg in obj]}"
-        return f"{type(obj)} {obj!r}"  # members of Literal: '1' and 1 must not get the same key
+        return f"{type(obj)} {id(type(obj))} {obj!r}"  # members of Literal: '1' and 1 must not get the same key
 
     def _order_args(self, args: VarTuple[BaseNormType]) -> VarTuple[BaseNormType]:
         args_list = list(args)
@@ -152,7 +153,8 @@ class _LiteralNormType(_BasicNormType):
 
     # ensure stable order of args during one interpreter session
     def _make_orderable(self, obj: LiteralArg) -> str:
-        return f"{type(obj)}{obj.name}" if isinstance(obj, Enum) else repr(obj)
+        # id is a tiebreaker for members of distinct enums with the same name
+        return f"{type(obj)}{obj.name} {id(type(obj))}" if isinstance(obj, Enum) else repr(obj)
 
     def _order_args(self, args: VarTuple[LiteralArg]) -> VarTuple[LiteralArg]:
         args_list = list(args)
